@@ -227,6 +227,11 @@ fn to_colr_paint(
             )))
         }
         ir::Paint::Layers(layers) => {
+            // PaintColrLayers.numLayers is a uint8; don't let it wrap
+            let num_layers = u8::try_from(layers.len()).map_err(|_| Error::OutOfBounds {
+                what: format!("PaintColrLayers layer count for '{glyph_name}'"),
+                value: layers.len().to_string(),
+            })?;
             let start_idx = layer_list.paints.len() as u32;
             for ir_paint in layers.iter() {
                 let paint = to_colr_paint(
@@ -241,8 +246,7 @@ fn to_colr_paint(
                 layer_list.paints.push(paint.into());
             }
             Ok(Paint::ColrLayers(PaintColrLayers::new(
-                layers.len() as u8,
-                start_idx,
+                num_layers, start_idx,
             )))
         }
     }
